@@ -184,6 +184,8 @@ def work(ctx, tier):
             sc["fault"] = {"kind": "cb", "cb": rng.choice(["strategy", "strategy", "sleeper", "handler"]), "at": rng.choice([0, 0, 1, 2]), "exc": rng.choice(gen.CB_EXCS)}
         if sc["cfg"].get("breaker"):
             ents = list(rig.BREAKER_ENTRIES)
+            if sc["cfg"].get("no_retry"):
+                ents = [e for e in ents if e.lstrip("a").startswith("policy.")]  # the sugar always has a retry component
         else:
             ents = list(rig.ENTRIES)
         if k % 5 == 2:
